@@ -236,9 +236,7 @@ def run(ctx):
     dist = {}
     if ctx.model_ok:
         r = ctx.rng
-        for fname, group, expect, keys in lc.load_corpus("C10"):
-            lc.decide(ctx, exe, "C10c", [group], MODE, known, keys=keys, nontrivial=nontrivial, expect=[expect])
-            dist["corpus"] = dist.get("corpus", 0) + 1
+        dist["corpus"] = lc.run_corpus(ctx, exe, "C10", MODE, known, nontrivial)
         np_, nq, nn = (60, 50, 6) if ctx.quick else (1500, 1500, 100)
         groups = [perm_group(r) for _ in range(np_)]
         groups += [perm_group(r, exhaustive=True) for _ in range(2 if ctx.quick else 40)]     # all 24 orders of 4 writes
@@ -247,6 +245,7 @@ def run(ctx):
         groups += [lc.scen_reverted_setcode_root(r) for _ in range(8 if ctx.quick else 100)]
         groups += [lc.scen_failed_write_after_delete(r) for _ in range(10 if ctx.quick else 150)]
         groups += [lc.scen_created_account_storage(r) for _ in range(8 if ctx.quick else 100)]
+        groups += [lc.scen_credit_existing(r) for _ in range(8 if ctx.quick else 100)]
         tot = {}
         step = 150
         for s in range(0, len(groups), step):
